@@ -77,7 +77,11 @@ func mutate(r *Rng, b *blob, kind string) mut {
 	case "wronghash":
 		m.decl.hash = genHash(r)
 	case "otherhash":
-		m.decl.hash = sha(r.Bytes(int(n)))
+		if n > 0 {
+			m.decl.hash = freshBlob(r, int(n), false).hash // never uploaded
+		} else {
+			m.decl.hash = genHash(r)
+		}
 	case "emptyclaim":
 		m.decl = dg{emptySha, 0}
 	}
@@ -303,6 +307,9 @@ func runHTTP(f *fixture, r *Rng, z bool, kind string, sz int) *ucase {
 			panic("dup: first upload failed: " + string(st))
 		}
 		u.preDup = true
+		bd0, _ := describe(b.data, false, b.hash, false)
+		u.ops = []string{fmt.Sprintf("FHttpPut true %s %s (XAbsent) CeNone %s %s", CS(b.hash), CZ(int64(sz)), bd0.coq(), CS(nextRnd()))}
+		u.obs = []string{"OSt SOk"}
 	}
 	u.got = f.httpPut(u.decl.hash, wire, o)
 	sent := wire
@@ -331,8 +338,8 @@ func runHTTP(f *fixture, r *Rng, z bool, kind string, sz int) *ucase {
 			xd = "XBad"
 		}
 	}
-	u.ops = []string{fmt.Sprintf("FHttpPut true %s %s (%s) %s %s %s", CS(u.decl.hash), CZ(cl), xd, ceTerm(o.ce), bd.coq(), CS(nextRnd()))}
-	u.obs = []string{"OSt " + u.got.coq()}
+	u.ops = append(u.ops, fmt.Sprintf("FHttpPut true %s %s (%s) %s %s %s", CS(u.decl.hash), CZ(cl), xd, ceTerm(o.ce), bd.coq(), CS(nextRnd())))
+	u.obs = append(u.obs, "OSt "+u.got.coq())
 	return u
 }
 
@@ -365,6 +372,9 @@ func runBatch(f *fixture, r *Rng, z bool, kind string, sz int) *ucase {
 			panic("dup: first upload failed")
 		}
 		u.preDup = true
+		bd0, _ := describe(b.data, false, b.hash, false)
+		u.ops = []string{fmt.Sprintf("FBatchUpdate [mkBU false %s %s CIdentity %s %s]", CS(b.hash), CZ(int64(sz)), bd0.coq(), CS(nextRnd()))}
+		u.obs = []string{"OSts SOk [SOk]"}
 	}
 	var extra []*blob
 	if kind == "multi" {
@@ -405,8 +415,8 @@ func runBatch(f *fixture, r *Rng, z bool, kind string, sz int) *ucase {
 	for _, s := range sts {
 		stTerms = append(stTerms, s.coq())
 	}
-	u.ops = []string{"FBatchUpdate " + CList(terms)}
-	u.obs = []string{fmt.Sprintf("OSts %s %s", st.coq(), CList(stTerms))}
+	u.ops = append(u.ops, "FBatchUpdate "+CList(terms))
+	u.obs = append(u.obs, fmt.Sprintf("OSts %s %s", st.coq(), CList(stTerms)))
 	return u
 }
 
@@ -433,6 +443,9 @@ func runBS(f *fixture, r *Rng, z bool, kind string, sz int) *ucase {
 			panic("dup: first upload failed: " + string(st))
 		}
 		u.preDup = true
+		bd0, _ := describe(b.data, false, b.hash, false)
+		u.ops = []string{fmt.Sprintf("FBsWrite (WN false %s %s) [mkWMsg true 0 %s true] false %s %s", CS(b.hash), CZ(int64(sz)), CZ(int64(sz)), bd0.coq(), CS(nextRnd()))}
+		u.obs = []string{"OSt SOk"}
 		if kind == "dupcorrupt" && len(wire) > 0 {
 			wire = append([]byte{}, wire...)
 			wire[r.Intn(len(wire))] ^= 0x20
@@ -499,7 +512,7 @@ func runBS(f *fixture, r *Rng, z bool, kind string, sz int) *ucase {
 	case "abort", "offset", "rename", "unsupported":
 		u.logical = nil
 	case "finearly":
-		if len(wire) > 0 {
+		if len(msgs[0].data) < len(wire) {
 			u.logical = nil
 		}
 	}
@@ -521,8 +534,8 @@ func runBS(f *fixture, r *Rng, z bool, kind string, sz int) *ucase {
 		same := mm.name == "" || mm.name == msgs[0].name
 		mt = append(mt, fmt.Sprintf("mkWMsg %s %s %s %s", CB(same), CZ(mm.off), CZ(int64(len(mm.data))), CB(mm.fin)))
 	}
-	u.ops = []string{fmt.Sprintf("FBsWrite (%s) %s %s %s %s", nmTerm, CList(mt), CB(abortAfter >= 0), bd.coq(), CS(nextRnd()))}
-	u.obs = []string{"OSt " + u.got.coq()}
+	u.ops = append(u.ops, fmt.Sprintf("FBsWrite (%s) %s %s %s %s", nmTerm, CList(mt), CB(abortAfter >= 0), bd.coq(), CS(nextRnd())))
+	u.obs = append(u.obs, "OSt "+u.got.coq())
 	return u
 }
 
@@ -609,7 +622,7 @@ func runSplice(f *fixture, r *Rng, withDigest bool, kind string, sz int) *ucase 
 	case "wronghash":
 		u.decl.hash = genHash(r)
 	case "otherhash":
-		u.decl.hash = sha(r.Bytes(sz))
+		u.decl.hash = freshBlob(r, sz, false).hash
 	case "chunksize+1":
 		cds[r.Intn(len(cds))].size++
 		logical = nil
@@ -752,7 +765,7 @@ func runAC(f *fixture, r *Rng, kind string, sz int) *ucase {
 	}
 	it2term := func(x inl) string {
 		if len(x.data) == 0 {
-			return "mkInl false None (mkBody 0 0 true true) \"\""
+			return "mkInl false None \"\" (mkBody 0 0 true true) \"\""
 		}
 		dterm := "None"
 		h := sha(x.data)
@@ -761,7 +774,7 @@ func runAC(f *fixture, r *Rng, kind string, sz int) *ucase {
 			h = x.digest.hash
 		}
 		bd, _ := describe(x.data, false, h, false)
-		return fmt.Sprintf("mkInl true %s %s %s", dterm, bd.coq(), CS(nextRnd()))
+		return fmt.Sprintf("mkInl true %s %s %s %s", dterm, CS(sha(x.data)), bd.coq(), CS(nextRnd()))
 	}
 	var ft []string
 	for _, x := range files {
@@ -809,7 +822,7 @@ func runFetch(f *fixture, r *Rng, kind string, sz int) *ucase {
 		sri = genHash(r)
 		u.decl.hash = sri
 	case "otherhash":
-		sri = sha(r.Bytes(sz + 1))
+		sri = freshBlob(r, sz+1, false).hash
 		u.decl.hash = sri
 	case "up404":
 		beh.status = 404 + 96*r.Intn(2)
